@@ -509,3 +509,151 @@ Proof.
 Qed.
 
 End Proofs.
+
+(* ------------------------------------------------------------------ *)
+(* simulation: two instantiations of the abstract engine whose conditions and
+   actions agree on related user states produce the same cycle records and the
+   same outcome (used to relate the memoising evaluator to the from-scratch SPEC) *)
+Section Simulation.
+Variables U1 U2 : Type.
+Variable cond1 : U1 -> entry -> U1 * cres.
+Variable act1 : U1 -> entry -> U1 * list effect * bool.
+Variable cond2 : U2 -> entry -> U2 * cres.
+Variable act2 : U2 -> entry -> U2 * list effect * bool.
+Variable R : U1 -> U2 -> Prop.
+Hypothesis cond_sim : forall u1 u2 e, R u1 u2 ->
+  snd (cond1 u1 e) = snd (cond2 u2 e) /\ R (fst (cond1 u1 e)) (fst (cond2 u2 e)).
+Hypothesis act_sim : forall u1 u2 e, R u1 u2 ->
+  snd (fst (act1 u1 e)) = snd (fst (act2 u2 e)) /\ snd (act1 u1 e) = snd (act2 u2 e) /\
+  R (fst (fst (act1 u1 e))) (fst (fst (act2 u2 e))).
+
+Definition RS (s1 : st U1) (s2 : st U2) : Prop :=
+  R (s_user s1) (s_user s2) /\ s_entries s1 = s_entries s2 /\ s_cycle s1 = s_cycle s2 /\
+  s_chk s1 = s_chk s2 /\ s_complete s1 = s_complete s2.
+
+Lemma cancelled_sim : forall c s1 s2, RS s1 s2 -> cancelled c s1 = cancelled c s2.
+Proof. intros c s1 s2 (_ & _ & _ & H & _). unfold cancelled. rewrite H. reflexivity. Qed.
+
+Lemma bump_sim : forall s1 s2, RS s1 s2 -> RS (bump s1) (bump s2).
+Proof. intros s1 s2 (A & B & C & D & E). unfold RS; simpl. repeat split; auto. Qed.
+
+Ltac rs_done := split; [first [assumption | apply bump_sim; assumption | apply bump_sim; apply bump_sim; assumption] | repeat split; auto].
+
+Lemma eval_loop_sim : forall c es s1 s2 run evs,
+  RS s1 s2 ->
+  let '(s1', run1, evs1, o1) := eval_loop U1 cond1 c es s1 run evs in
+  let '(s2', run2, evs2, o2) := eval_loop U2 cond2 c es s2 run evs in
+  RS s1' s2' /\ run1 = run2 /\ evs1 = evs2 /\ o1 = o2.
+Proof.
+  intros c es. induction es as [|e es IH]; intros s1 s2 run evs H; simpl.
+  - auto.
+  - rewrite (cancelled_sim c s1 s2 H).
+    destruct (cancelled c s2); [rs_done|].
+    destruct (eval_guard (e_retracted e) (e_deleted e)).
+    2:{ apply IH. apply bump_sim; auto. }
+    pose proof (bump_sim _ _ H) as Hb.
+    rewrite (cancelled_sim c (bump s1) (bump s2) Hb).
+    destruct (cancelled c (bump s2)).
+    { destruct (c_reterr c); [rs_done|].
+      destruct H as (_ & _ & C & _). simpl. rewrite C. apply IH. apply bump_sim; auto. }
+    pose proof (bump_sim _ _ Hb) as Hbb.
+    destruct Hbb as (HR & HE & HC & HK & HCo). simpl in HR.
+    destruct (cond_sim _ _ e HR) as [Hres Hr'].
+    destruct (cond1 (s_user s1) e) as [u1 r1]. destruct (cond2 (s_user s2) e) as [u2 r2].
+    simpl in Hres, Hr'. subst r2.
+    assert (Hw: RS (with_user (bump (bump s1)) u1) (with_user (bump (bump s2)) u2)).
+    { unfold RS; simpl. destruct H as (_ & B & C & D & E). repeat split; auto. }
+    assert (Hcy: s_cycle s1 = s_cycle s2) by apply H.
+    simpl. rewrite Hcy.
+    destruct r1.
+    + apply IH; auto.
+    + apply IH; auto.
+    + destruct (c_reterr c); [rs_done|]. apply IH; auto.
+Qed.
+
+Lemma apply_fx_sim : forall fxs s1 s2, RS s1 s2 -> RS (fold_left apply_fx fxs s1) (fold_left apply_fx fxs s2).
+Proof.
+  induction fxs as [|fx fxs IH]; intros s1 s2 H; simpl; auto.
+  apply IH. destruct H as (A & B & C & D & E). destruct fx; unfold RS; simpl; repeat split; auto. congruence.
+Qed.
+
+Definition step_sim (r1 : step_result U1) (r2 : step_result U2) : Prop :=
+  match r1, r2 with
+  | Continue s1 c1, Continue s2 c2 => RS s1 s2 /\ c1 = c2
+  | Stop s1 c1 o1, Stop s2 c2 o2 => RS s1 s2 /\ c1 = c2 /\ o1 = o2
+  | _, _ => False
+  end.
+
+Lemma cycle_step_sim : forall c ord s1 s2, RS s1 s2 ->
+  step_sim (cycle_step U1 cond1 act1 c ord s1) (cycle_step U2 cond2 act2 c ord s2).
+Proof.
+  intros c ord s1 s2 H. unfold cycle_step.
+  rewrite (cancelled_sim c s1 s2 H).
+  destruct (cancelled c s2); [simpl; rs_done|].
+  pose proof (bump_sim _ _ H) as Hb.
+  assert (He: s_entries (bump s1) = s_entries (bump s2)) by apply Hb.
+  assert (Hc: s_cycle (bump s1) = s_cycle (bump s2)) by apply Hb.
+  rewrite He, Hc.
+  pose proof (eval_loop_sim c (ord (s_entries (bump s2))) (bump s1) (bump s2) [] [] Hb) as Hl.
+  destruct (eval_loop U1 cond1 c (ord (s_entries (bump s2))) (bump s1) [] []) as [[[s1' run1] evs1] o1].
+  destruct (eval_loop U2 cond2 c (ord (s_entries (bump s2))) (bump s2) [] []) as [[[s2' run2] evs2] o2].
+  destruct Hl as (Hs' & -> & -> & ->).
+  destruct o2 as [o|]; [simpl; rs_done|].
+  destruct run2 as [|hd tl].
+  - rewrite (cancelled_sim c s1' s2' Hs'). destruct (cancelled c s2'); simpl; rs_done.
+  - assert (Hcy: s_cycle s1' = s_cycle s2') by apply Hs'. simpl s_cycle. rewrite Hcy.
+    destruct (over_budget (s_cycle s2' + 1) (c_max c)).
+    { simpl. destruct Hs' as (A & B & C & D & E). unfold RS; simpl. repeat split; auto. }
+    set (t1 := {| s_user := s_user s1'; s_entries := s_entries s1'; s_cycle := s_cycle s2' + 1; s_chk := s_chk s1'; s_complete := s_complete s1' |}).
+    set (t2 := {| s_user := s_user s2'; s_entries := s_entries s2'; s_cycle := s_cycle s2' + 1; s_chk := s_chk s2'; s_complete := s_complete s2' |}).
+    assert (Ht: RS t1 t2) by (destruct Hs' as (A & B & C & D & E); unfold RS, t1, t2; simpl; repeat split; auto).
+    rewrite (cancelled_sim c t1 t2 Ht).
+    destruct (cancelled c t2); [simpl; rs_done|].
+    pose proof (bump_sim _ _ Ht) as Htb.
+    assert (HRu: R (s_user (bump t1)) (s_user (bump t2))) by apply Htb.
+    destruct (act_sim _ _ (pick hd tl) HRu) as (Hfx & Hfail & HR').
+    destruct (act1 (s_user (bump t1)) (pick hd tl)) as [[u1 fxs1] f1].
+    destruct (act2 (s_user (bump t2)) (pick hd tl)) as [[u2 fxs2] f2].
+    simpl in Hfx, Hfail, HR'. subst fxs2 f2.
+    assert (Hw: RS (with_user (bump t1) u1) (with_user (bump t2) u2)).
+    { destruct Htb as (A & B & C & D & E). unfold RS; simpl. repeat split; auto. }
+    pose proof (apply_fx_sim fxs1 _ _ Hw) as Hfin.
+    assert (Hchk: s_chk (bump t1) = s_chk (bump t2)) by apply Htb.
+    rewrite Hchk.
+    destruct f1; [simpl; rs_done|].
+    assert (Hco: s_complete (fold_left apply_fx fxs1 (with_user (bump t1) u1)) = s_complete (fold_left apply_fx fxs1 (with_user (bump t2) u2))) by apply Hfin.
+    rewrite Hco.
+    destruct (s_complete (fold_left apply_fx fxs1 (with_user (bump t2) u2))).
+    + rewrite (cancelled_sim c _ _ Hfin). destruct (cancelled c _); simpl; rs_done.
+    + simpl. split; auto.
+Qed.
+
+Lemma run_loop_sim : forall fuel c order i s1 s2 acc, RS s1 s2 ->
+  let '(s1', recs1, o1) := run_loop U1 cond1 act1 fuel c order i s1 acc in
+  let '(s2', recs2, o2) := run_loop U2 cond2 act2 fuel c order i s2 acc in
+  RS s1' s2' /\ recs1 = recs2 /\ o1 = o2.
+Proof.
+  induction fuel as [|fuel IH]; intros c order i s1 s2 acc H; simpl; auto.
+  pose proof (cycle_step_sim c (order i) s1 s2 H) as Hs.
+  destruct (cycle_step U1 cond1 act1 c (order i) s1) as [t1 r1|t1 r1 o1];
+  destruct (cycle_step U2 cond2 act2 c (order i) s2) as [t2 r2|t2 r2 o2]; simpl in Hs; try contradiction.
+  - destruct Hs as [Ht ->]. apply IH; auto.
+  - destruct Hs as (Ht & -> & ->). destruct r2; auto.
+Qed.
+
+Theorem execute_sim : forall (reset1 : U1 -> U1) (reset2 : U2 -> U2) fuel c order u1 u2 es,
+  R (reset1 u1) (reset2 u2) ->
+  let '(s1', recs1, o1) := execute U1 cond1 act1 reset1 fuel c order u1 es in
+  let '(s2', recs2, o2) := execute U2 cond2 act2 reset2 fuel c order u2 es in
+  R (s_user s1') (s_user s2') /\ recs1 = recs2 /\ o1 = o2.
+Proof.
+  intros reset1 reset2 fuel c order u1 u2 es H. unfold execute.
+  pose proof (run_loop_sim fuel c order 0%nat (init_st reset1 u1 es) (init_st reset2 u2 es) []) as Hr.
+  assert (Hi: RS (init_st reset1 u1 es) (init_st reset2 u2 es)) by (unfold RS, init_st; simpl; repeat split; auto).
+  specialize (Hr Hi).
+  destruct (run_loop U1 cond1 act1 fuel c order 0 (init_st reset1 u1 es) []) as [[s1' recs1] o1].
+  destruct (run_loop U2 cond2 act2 fuel c order 0 (init_st reset2 u2 es) []) as [[s2' recs2] o2].
+  destruct Hr as (Hs & Hrecs & Ho). split; [apply Hs|auto].
+Qed.
+
+End Simulation.
